@@ -273,7 +273,7 @@ impl<'a> Machine<'a> {
         let mut v = base;
         for f in &l.fields {
             v = match v {
-                Val::Rec(fs) => fs.into_iter().find(|(n, _)| n.eq_ignore_ascii_case(f)).map(|(_, v)| v).expect("field"),
+                Val::Rec(fs) => fs.into_iter().find(|(n, _)| field_eq(n, f)).map(|(_, v)| v).expect("field"),
                 _ => panic!("refsem: field access on non-record"),
             };
         }
@@ -328,7 +328,7 @@ impl<'a> Machine<'a> {
         let mut t = target;
         for f in &l.fields {
             t = match t {
-                Val::Rec(fs) => fs.iter_mut().find(|(n, _)| n.eq_ignore_ascii_case(f)).map(|(_, v)| v).expect("field"),
+                Val::Rec(fs) => fs.iter_mut().find(|(n, _)| field_eq(n, f)).map(|(_, v)| v).expect("field"),
                 _ => panic!("refsem: field store on non-record"),
             };
         }
@@ -724,7 +724,7 @@ impl<'a> Machine<'a> {
         };
         for f in &r.fields {
             v = match v {
-                Val::Rec(fs) => fs.into_iter().find(|(n, _)| n.eq_ignore_ascii_case(f)).map(|(_, v)| v).expect("field"),
+                Val::Rec(fs) => fs.into_iter().find(|(n, _)| field_eq(n, f)).map(|(_, v)| v).expect("field"),
                 _ => panic!("field"),
             };
         }
@@ -743,7 +743,7 @@ impl<'a> Machine<'a> {
         };
         for f in &r.fields {
             t = match t {
-                Val::Rec(fs) => fs.iter_mut().find(|(n, _)| n.eq_ignore_ascii_case(f)).map(|(_, v)| v).expect("field"),
+                Val::Rec(fs) => fs.iter_mut().find(|(n, _)| field_eq(n, f)).map(|(_, v)| v).expect("field"),
                 _ => panic!("field"),
             };
         }
@@ -1404,4 +1404,10 @@ pub fn run(prog: &Program, budget: u64) -> Outcome {
         }
     }
     Outcome::Determined(RefResult { stdout: m.out, end, triggers: m.triggers, statements: m.statements, features: m.features, globals, printed_var: m.printed_var })
+}
+
+/// A field may be written with the type character of its type (`rec.name$`): the same field.
+fn field_eq(declared: &str, written: &str) -> bool {
+    let w = written.trim_end_matches(['%', '&', '!', '#', '$']);
+    declared.eq_ignore_ascii_case(w)
 }
